@@ -257,11 +257,26 @@ def register(db):
         assumes=[DERIVED.replace("{d}.keys() ==", "set({d}.keys()) ==").format(d="data")],
         ensures=[], raises=dict(DOCUMENTED), returns="u:Any", properties=P,
     ))
+    # a candidate class is tried by a decoder that differs from the caller's only in being strict about conversion
+    # failures (so that "5" is not bound to an int candidate as text); every other option of the caller - in
+    # particular leniency about unknown properties - and the caller's context apply to the candidates as well
+    STRICT = "uf('dataclasses.replace[fail_on_converter_warnings]', 'u:ParserConfig', caller_config, True)"
+    db.add(Contract(
+        f"{DD}.bind_dataclass", variant="candidate-of-a-best-match",
+        params={"self": decoder, "data": "u:Json|None", "clazz": "opaque:type"},
+        ghost={"caller_config": "u:ParserConfig", "caller_context": "u:XmlContext"},
+        requires=[f"self.config == {STRICT}", "self.context == caller_context"],
+        ensures=[], raises={"Exception": True}, returns="u:Any",
+        loops=[Loop(invariants=[], header="data.items()", modifies=["params"], vars={"params": "dict[str,u:Any]"})],
+        properties=["C04", "C10"],
+        note="used at the call site in bind_best_dataclass: its pre-condition is what that caller must establish",
+    ))
     db.add(Contract(
         f"{DD}.bind_best_dataclass", variant="documented-errors", call_default=True,
         params={"self": decoder, "data": "u:Json", "classes": "seq[u:type]"},
         requires=["isinstance(data, dict)"],
-        ensures=[], raises=dict(DOCUMENTED), returns="u:Any", properties=P,
+        call_variants={f"{DD}.bind_dataclass": [("candidate-of-a-best-match", {"caller_config": "self.config", "caller_context": "self.context"})] * 1},
+        ensures=[], raises=dict(DOCUMENTED), returns="u:Any", properties=P + ["C04", "C10"],
         loops=[Loop(invariants=[], header="classes", vars={"obj": "u:Any|None", "max_score": "real", "candidate": "u:Any|None", "score": "real"})],
     ))
     # ------------------------------------------------------------------ JsonParser: bytes -> document -> model
